@@ -49,7 +49,35 @@ def performer_obligations(rep, prop, exclude=()):
     obs = pyvc.verify(rep, prop, core.Fn(PERF, 'TransformationPerformer._update_op_id_map'), performer.UpdateOpIdMap(), select=None)
     obs += pyvc.verify(rep, prop, core.Fn(PERF, 'TransformationPerformer._apply_single_transformation'), performer.ApplySingle(), select=None, exclude=exclude,
                        replay=lambda mv, label: graph_native.replay_apply_single(mv), fallback=_search_apply_single)
+    obs += pyvc.verify(rep, prop, core.Fn(PERF, 'TransformationPerformer._create_op_id_map'), performer.CreateOpIdMap(), select=None)
+    obs += pyvc.verify(rep, prop, core.Fn(PERF, 'TransformationPerformer._update_instructions'), performer.UpdateInstructions(), select=None)
+    obs += orchestration_obligations(rep, prop)
     return obs
+def orchestration_obligations(rep, prop):
+    """thin glue of the performer, decided as dataflow patterns on the real AST (DESIGN §3 'orchestration contracts'): the two passes of
+    _apply_transformations call _apply_single_transformation(inst, index, model) for every instruction of the pass's kind in index order;
+    transform_graph resets and creates the op-id maps, snapshots every subgraph's outputs BEFORE transforming, applies every tensor's
+    instruction list, and remaps the signatures with that snapshot"""
+    import ast; U = ast.unparse; out = []
+    fn = rep.fn(core.Fn(PERF, 'TransformationPerformer._apply_transformations')); loops = [n for n in fn.node.body if isinstance(n, ast.For)]
+    def pass_ok(l, setname):
+        return U(l.iter) == 'enumerate(transformation_inst.instructions)' and U(l.target) == '(index, instruction)' and len(l.body) == 1 and isinstance(l.body[0], ast.If) \
+            and U(l.body[0].test) == f'instruction.transformation in self.{setname}' and not l.body[0].orelse and len(l.body[0].body) == 1 \
+            and U(l.body[0].body[0]) == 'self._apply_single_transformation(transformation_inst, index, tflite_model)'
+    ok = len(loops) == 2 and pass_ok(loops[0], '_op_insertion_transformations') and pass_ok(loops[1], '_op_replacement_transformations')
+    out.append(core.Ob(f'{prop}/{fn.name}/orchestration.two-passes-apply-every-instruction-of-their-kind-in-order', fn, 'ast-dataflow', core.PROVED if ok else core.REFUTED, 0.0, clause='pass 1: insertion transformations, pass 2: replacements; same instruction object, index and model'))
+    init = rep.fn(core.Fn(PERF, 'TransformationPerformer.__init__')); src_i = U(init.node)
+    ok = all(k in src_i for k in ('qtyping.QuantTransformation.ADD_DEQUANTIZE: dequant_insert.insert_dequant', 'qtyping.QuantTransformation.ADD_QUANTIZE: quant_insert.insert_quant', 'qtyping.QuantTransformation.QUANTIZE_TENSOR: quantize_tensor.quantize_tensor')) \
+         and 'self._op_insertion_transformations = set([qtyping.QuantTransformation.ADD_DEQUANTIZE, qtyping.QuantTransformation.QUANTIZE_TENSOR, qtyping.QuantTransformation.ADD_QUANTIZE])' in src_i
+    out.append(core.Ob(f'{prop}/{init.name}/orchestration.registration-table-and-insertion-set', init, 'ast-dataflow', core.PROVED if ok else core.REFUTED, 0.0, clause='each transformation key dispatches to the function verified under that contract; the insertion set is exactly {ADD_DEQUANTIZE, QUANTIZE_TENSOR, ADD_QUANTIZE}'))
+    tg = rep.fn(core.Fn(PERF, 'TransformationPerformer.transform_graph')); body = [U(st) for st in tg.node.body if not (isinstance(st, ast.Expr) and isinstance(st.value, ast.Constant))]
+    want = ['self._original_op_id_map = []', 'self._added_op_id_map = []', 'self._create_op_id_map(tflite_model)', 'subgraph_outputs_before = []',
+            'for subgraph in tflite_model.subgraphs:\n    subgraph_outputs_before.append(list(subgraph.outputs))',
+            'for transformation_inst in transformation_instructions.values():\n    self._apply_transformations(transformation_inst, tflite_model)',
+            'self._remap_signature_outputs(tflite_model, subgraph_outputs_before)']
+    ok = body == want
+    out.append(core.Ob(f'{prop}/{tg.name}/orchestration.reset-create-snapshot-apply-all-remap', tg, 'ast-dataflow', core.PROVED if ok else core.REFUTED, 0.0, detail=str(body), clause='maps reset and created for this model; outputs snapshotted before any transformation; every instruction list applied once; signatures remapped with the snapshot'))
+    return out
 def performer_canaries(rep):
     src = core.read_source(PERF)
     for name, qual, spec, a, b in [
